@@ -343,7 +343,7 @@ class TextConverter(PDFConverter[AnyIO]):
     def write_text(self, text: str) -> None:
         text = utils.compatible_encode_method(text, self.codec, "ignore")
         if self.outfp_binary:
-            cast(BinaryIO, self.outfp).write(text.encode())
+            cast(BinaryIO, self.outfp).write(text.encode(self.codec, "ignore"))
         else:
             cast(TextIO, self.outfp).write(text)
 
